@@ -243,9 +243,9 @@ func runMulti[E comparable](c MCase, e env[E]) pbt.Outcome {
 
 	var (
 		sameView, overlap, spareInto, rebuilt, replaced, gced, scribbled, foreignBuilt, dropped, keptStr bool
-		alternations, maxAlive, maxSize, mutations, builtWhileOthersBig                              int
-		lastObj                                                                                      *mobj[E]
-		views                                                                                        [][3]int
+		alternations, maxAlive, maxSize, mutations, builtWhileOthersBig                                  int
+		lastObj                                                                                          *mobj[E]
+		views                                                                                            [][3]int
 	)
 	build := func(v View, replace int) pbt.Outcome {
 		off := mod(v.Off, L+1)
@@ -714,8 +714,11 @@ var multiSizesThorough = append(append([]int{}, multiSizes...), 3000, 4095, 4096
 
 var multiKinds = []int{
 	mAdd, mAdd, mAdd, mAdd, mRemove, mRemove, mRemove, mRemoveAt, mRemoveAt, mGet, mIndex, mContains, mLen, mString, mString, mSweep, mSweep,
-	mNew, mNew, mNew, mNew, mNew, mGC, mScribble, mForeign, mDrop,
+	mNew, mNew, mNew, mNew, mNew, mScribble, mForeign, mDrop,
 }
+
+// multiKindsGC: for one case in five (a collection costs as much as thousands of calls, far more on a busy machine).
+var multiKindsGC = append(append([]int{}, multiKinds...), mGC, mGC)
 
 func genMulti(t *rapid.T, sizes []int, procs []int) MCase {
 	c := MCase{Order: rapid.SampledFrom(allOrders).Draw(t, "order"), Vals: rapid.SampledFrom(bigVals).Draw(t, "vals"),
@@ -752,8 +755,12 @@ func genMulti(t *rapid.T, sizes []int, procs []int) MCase {
 	for _, n := range ns {
 		c.Objs = append(c.Objs, view(n))
 	}
+	kinds := multiKinds
+	if rapid.IntRange(0, 4).Draw(t, "withgc") == 4 {
+		kinds = multiKindsGC
+	}
 	opGen := rapid.Custom(func(t *rapid.T) MOp {
-		op := MOp{O: rapid.IntRange(0, maxObjs-1).Draw(t, "o"), K: rapid.SampledFrom(multiKinds).Draw(t, "k"), A: rapid.IntRange(0, 300).Draw(t, "a")}
+		op := MOp{O: rapid.IntRange(0, maxObjs-1).Draw(t, "o"), K: rapid.SampledFrom(kinds).Draw(t, "k"), A: rapid.IntRange(0, 300).Draw(t, "a")}
 		switch op.K {
 		case mRemoveAt, mGet:
 			op.B = rapid.SampledFrom(modeTable).Draw(t, "mode")
@@ -799,7 +806,7 @@ var multiProcs = []int{0, 0, 0, 0, 0, 0, 1, 1, 2, 3, 5, 6, 7, 16}
 
 var specMulti = pbt.Register(&pbt.Spec[MCase]{
 	Property: "C07", Name: "C07.multi",
-	Rule: "rapid: " + ruleMulti + "Object sizes drawn from 0..33 densely and the ends and the inside of every band between powers of two up to 2049 (thorough: 8193), 1..4 initial objects, 0..34 steps (one in five a further NewSorted), all 15 orders/element types, " +
+	Rule: "rapid: " + ruleMulti + "Object sizes drawn from 0..33 densely and the ends and the inside of every band between powers of two up to 2049 (thorough: 8193), 1..4 initial objects, 0..34 steps (one in five a further NewSorted; in one case of five, two steps in 27 are garbage collections), all 15 orders/element types, " +
 		"Vals in {1,2,3,7,30,300,5000}, GOMAXPROCS 4 (process default, plan.json) or 1, 2, 3, 5, 6, 7, 16. " + ruleMultiNT,
 	Gen: func(t *rapid.T) MCase {
 		if pbt.GetEnv().Tier == "thorough" {
@@ -807,7 +814,7 @@ var specMulti = pbt.Register(&pbt.Spec[MCase]{
 		}
 		return genMulti(t, multiSizes, multiProcs)
 	},
-	Run: RunMulti, Quick: 3000, Thorough: 20000,
+	Run: RunMulti, Quick: 3000, Thorough: 12000,
 })
 
 // ---- enumerated pairs
@@ -829,6 +836,14 @@ func pairSizes(tier string) []int {
 // A over n1 values, B over n2 values, [a foreign-type Sorted in between], alternating calls, C over n2 values, D over
 // n1 values, a GC, a write of the caller into A's view, E over exactly A's view, a double GC, F over n2 values; sweeps
 // of every object in between. At the end: per order one case with 2^16+300 NewSorted calls in a row while two others live.
+// gcOp: a garbage collection (twice when a is odd) in every third case, a Len() otherwise.
+func gcOp(k, a int) MOp {
+	if k%3 == 0 {
+		return MOp{K: mGC, A: a}
+	}
+	return MOp{K: mLen}
+}
+
 func pairCases(tier string, yield func(MCase) bool) {
 	k := 0
 	for _, n1 := range pairSizes(tier) {
@@ -865,11 +880,11 @@ func pairCases(tier string, yield func(MCase) bool) {
 					MOp{O: 2, K: mAdd, A: a + 3}, MOp{O: 0, K: mSweep}, MOp{O: 1, K: mSweep}, MOp{O: 2, K: mSweep},
 					MOp{K: mNew, A: 1, B: n1, S: 2}, // D
 					MOp{O: 3, K: mRemoveAt, B: 7}, MOp{O: 0, K: mAdd, A: a + 4},
-					MOp{K: mGC},
+					gcOp(k, 0),
 					MOp{K: mScribble, A: offA + n1/2, B: a + 9},
 					MOp{K: mNew, A: offA, B: n1, S: rot}, // E: exactly the view of A, whose middle value the caller has just replaced
 					MOp{O: 4, K: mSweep, A: 3}, MOp{O: 1, K: mString},
-					MOp{K: mGC, A: 1},
+					gcOp(k+1, 1),
 					MOp{O: k, K: mNew, A: 2, B: n2, S: 1}, // F replaces one of the five
 					MOp{O: 0, K: mSweep}, MOp{O: 1, K: mSweep}, MOp{O: 2, K: mSweep}, MOp{O: 3, K: mSweep}, MOp{O: 4, K: mSweep},
 				)
@@ -898,7 +913,7 @@ func pairCases(tier string, yield func(MCase) bool) {
 var specPairs = pbt.Register(&pbt.Spec[MCase]{
 	Property: "C07", Name: "C07.pairs",
 	Rule: "enumerated: " + ruleMulti + "For every first size n1 in {0,1,2,8,15,16,17,18,20,21,24} and {p-1,p,p+1,1.5p : p = 32..4096} (thorough: ..16384) and every second size n2 in {n1, n1-1, n1+1, n1/2, n1/2+1, 17, 33, 2*n1, 3}, with two orders/value patterns each: " +
-		"A over n1 values, B over n2 values, (every third case: a Sorted of another element type), kept Strings, alternating Adds/Removes/Sweeps on A and B, C over n2 values, D over n1 values, GC, the caller overwrites the middle of A's view, E over exactly A's view, double GC, F over n2 values replacing one of the five, sweeps of all five; GOMAXPROCS 4 (process default)/1/2/3/5/6/7/12/16 in rotation; plus four cases (thorough eight) with 2^16+301 NewSorted calls in a row over 3 or 17 values while two other objects are alive. " + ruleMultiNT,
+		"A over n1 values, B over n2 values, (every third case: a Sorted of another element type), kept Strings, alternating Adds/Removes/Sweeps on A and B, C over n2 values, D over n1 values, (every third case) GC, the caller overwrites the middle of A's view, E over exactly A's view, (every third case) double GC, F over n2 values replacing one of the five, sweeps of all five; GOMAXPROCS 4 (process default)/1/2/3/5/6/7/12/16 in rotation; plus four cases (thorough eight) with 2^16+301 NewSorted calls in a row over 3 or 17 values while two other objects are alive. " + ruleMultiNT,
 	Enum: func(shard, shards int, tier string, yield func(MCase) bool) {
 		i := 0
 		pairCases(tier, func(c MCase) bool {
